@@ -282,9 +282,11 @@ func c11Expect(c *c11Case, src string) (toks []c11Tok, usedKeyword, usedBacktrac
 	// whole text (in byte mode: its UTF-8 bytes); otherwise it stays an ordinary rule.
 	keywords := map[string]*c11Rule{}
 	var classRE *respec.Node
+	var classSCs []int
 	for i := range c.Rules {
 		if c.Rules[i].Class {
 			classRE = c.Rules[i].RE
+			classSCs = c.Rules[i].SCs
 		}
 	}
 	specialised := map[int]bool{} // rules moved under the class rule (not part of the DFA)
@@ -301,6 +303,16 @@ func c11Expect(c *c11Case, src string) (toks []c11Tok, usedKeyword, usedBacktrac
 				continue
 			}
 			kw = v
+		}
+		// the class rule must be active in one of the rule's start conditions
+		shared := false
+		for _, s := range c.Rules[i].SCs {
+			for _, cs := range classSCs {
+				shared = shared || s == cs
+			}
+		}
+		if !shared {
+			continue
 		}
 		lens, _ := respec.MatchLens(classRE, respec.Env{Bytes: bytes, Refs: c.Named}, kw)
 		if len(lens) > 0 && lens[len(lens)-1] == len(kw) {
